@@ -1,0 +1,16 @@
+//! Test-only hooks for external verification harnesses (feature `verif-hooks`).
+
+use std::sync::atomic::{AtomicI64, Ordering};
+
+static CLOCK_OFFSET_NS: AtomicI64 = AtomicI64::new(0);
+
+/// Sets a process-wide offset, in nanoseconds, that is added to every system time sample taken by
+/// the datastore.
+pub fn set_clock_offset(nanos: i64) {
+    CLOCK_OFFSET_NS.store(nanos, Ordering::SeqCst);
+}
+
+/// Returns the current clock offset in nanoseconds.
+pub fn clock_offset() -> i64 {
+    CLOCK_OFFSET_NS.load(Ordering::SeqCst)
+}
